@@ -632,6 +632,109 @@ Proof.
   exists q, w. unfold outcome_of. rewrite E, D. auto.
 Qed.
 
+(* ------------------------------------------------------------------ drain *)
+Lemma done_stable st e r c p : st_stat st r = SDone c p -> st_stat (step st e) r = SDone c p.
+Proof.
+  intros Hd. destruct e as [r0 c0|c0 s0|c0 s0|r0|c0|c0]; cbn [Model.step].
+  - destruct (st_stat st r0) as [|c1 s1|c1 p1| |] eqn:Es0; try exact Hd.
+    destruct (req_of g r0); [|exact Hd]. destruct (c_dead (st_conn st c0)); [exact Hd|].
+    assert (r <> r0) by (intros ->; congruence).
+    destruct (wire_request (g_ua g) (proto_of g c0)); cbn [st_stat]; rewrite upd_other by assumption; exact Hd.
+  - destruct (c_dead (st_conn st c0)); [exact Hd|]. destruct (handle_q _ _ _) as [[[r1 w1]|] q']; exact Hd.
+  - destruct (c_dead (st_conn st c0)); [exact Hd|]. destruct (take_resp _ _ _) as [[[m x]|] q']; [|exact Hd].
+    destruct (recipient _ _ _) as [r'|]; [|exact Hd].
+    destruct (is_running (st_stat st r')) eqn:Er; [|exact Hd].
+    cbn [st_stat]. rewrite upd_other; [exact Hd|]. intros ->. rewrite Hd in Er. discriminate.
+  - destruct (st_stat st r0) as [|c1 s1|c1 p1| |] eqn:Es0; try exact Hd.
+    + cbn [st_stat]. rewrite upd_other; [exact Hd|intros ->; congruence].
+    + cbn [st_stat]. rewrite upd_other; [exact Hd|intros ->; congruence].
+  - destruct (c_dead (st_conn st c0)); exact Hd.
+  - exact Hd.
+Qed.
+
+Lemma done_stable_run evs : forall st r c p, st_stat st r = SDone c p -> st_stat (run_from st evs) r = SDone c p.
+Proof.
+  induction evs as [|e t IH]; intros st r c p H; cbn [Model.run_from fold_left]; [exact H|].
+  apply IH. apply done_stable. exact H.
+Qed.
+
+(* the environment finishes its work: for every request running in [st] the server handles it and
+   the transport delivers the response *)
+Definition drain_for (st0 : state) (l : list ereq) : list event :=
+  flat_map (fun q => match st_stat st0 (q_id q) with
+                     | SRunning c s => [EHandle c s; EDeliver c s]
+                     | _ => []
+                     end) l.
+Definition drain_events (st : state) : list event := drain_for st (g_reqs g).
+
+Definition settled (st0 st : state) : Prop :=
+  forall r c s, st_stat st0 r = SRunning c s -> c_dead (st_conn st0 c) = false ->
+    (st_stat st r = SRunning c s /\ c_dead (st_conn st c) = false)
+    \/ (exists c' p, st_stat st r = SDone c' p).
+
+Definition quiet (e : event) : Prop := exists c s, e = EHandle c s \/ e = EDeliver c s.
+
+Lemma quiet_step st0 st e :
+  Inv st -> settled st0 st -> quiet e -> Inv (step st e) /\ settled st0 (step st e).
+Proof.
+  intros I S [c0 [s0 Q]].
+  assert (Hok : pool_ok st e = true) by (destruct Q as [-> | ->]; reflexivity).
+  split; [apply inv_step; assumption|].
+  intros r c s Hr Hd. destruct (S r c s Hr Hd) as [[Hr' Hd']|[c' [p Hp]]].
+  - destruct (running_stable st e r c s I Hok Hr' Hd') as [[A [B|B]]|[[c' [p Hp]]|[B _]]].
+    + left. auto.
+    + destruct Q as [-> | ->]; discriminate.
+    + right. eauto.
+    + destruct Q as [-> | ->]; discriminate.
+  - right. exists c', p. apply done_stable. exact Hp.
+Qed.
+
+Lemma drain_for_spec st0 l : forall st,
+  Inv st -> settled st0 st ->
+  Inv (run_from st (drain_for st0 l)) /\ settled st0 (run_from st (drain_for st0 l)) /\
+  forall q c s, In q l -> st_stat st0 (q_id q) = SRunning c s -> c_dead (st_conn st0 c) = false ->
+    exists c' p, st_stat (run_from st (drain_for st0 l)) (q_id q) = SDone c' p.
+Proof.
+  induction l as [|q0 t IH]; intros st I S.
+  - cbn [drain_for flat_map Model.run_from fold_left]. split; [exact I|]. split; [exact S|]. intros q c s [].
+  - unfold drain_for. cbn [flat_map]. fold (drain_for st0 t). rewrite run_from_app.
+    set (e0 := match st_stat st0 (q_id q0) with SRunning c s => [EHandle c s; EDeliver c s] | _ => [] end).
+    assert (H1 : Inv (run_from st e0) /\ settled st0 (run_from st e0) /\
+                 forall c s, st_stat st0 (q_id q0) = SRunning c s -> c_dead (st_conn st0 c) = false ->
+                   exists c' p, st_stat (run_from st e0) (q_id q0) = SDone c' p).
+    { unfold e0. destruct (st_stat st0 (q_id q0)) as [|c s|c p| |] eqn:E0;
+        try (cbn [Model.run_from fold_left]; split; [exact I|]; split; [exact S|]; intros; discriminate).
+      cbn [Model.run_from fold_left].
+      destruct (quiet_step st0 st (EHandle c s) I S) as [I1 S1]; [exists c, s; auto|].
+      destruct (quiet_step st0 _ (EDeliver c s) I1 S1) as [I2 S2]; [exists c, s; auto|].
+      split; [exact I2|]. split; [exact S2|]. intros c1 s1 E1 Hd. inversion E1. subst c1 s1.
+      destruct (S (q_id q0) c s E0 Hd) as [[Hr' Hd']|[c' [p Hp]]].
+      - destruct (progress st (q_id q0) c s I Hr' Hd') as [p Hp]. eauto.
+      - exists c', p. apply done_stable, done_stable. exact Hp. }
+    destruct H1 as (I1 & S1 & D1).
+    destruct (IH _ I1 S1) as (I2 & S2 & D2). split; [exact I2|]. split; [exact S2|].
+    intros q c s [->|Hin] Hr Hd.
+    + destruct (D1 c s Hr Hd) as [c' [p Hp]]. exists c', p. apply done_stable_run. exact Hp.
+    + apply (D2 q c s Hin Hr Hd).
+Qed.
+
+(* after the drain every request that was running on a live connection has its response, and it
+   is the right one *)
+Theorem drain_completes evs :
+  sched_ok evs = true ->
+  let st := run_state evs in
+  let st' := run_from st (drain_events st) in
+  Inv st' /\
+  forall q c s, In q (g_reqs g) -> st_stat st (q_id q) = SRunning c s -> c_dead (st_conn st c) = false ->
+    exists c' p, st_stat st' (q_id q) = SDone c' p /\ good_resp c' (q_id q) p.
+Proof.
+  intros H st st'. pose proof (inv_reachable evs H) as I. fold st in I.
+  assert (S : settled st st) by (intros r c s Hr Hd; left; auto).
+  destruct (drain_for_spec st (g_reqs g) st I S) as (I' & _ & D). split; [exact I'|].
+  intros q c s Hin Hr Hd. destruct (D q c s Hin Hr Hd) as [c' [p Hp]]. exists c', p. split; [exact Hp|].
+  apply (inv_done _ I' _ _ _ Hp).
+Qed.
+
 End Proofs.
 
 (* ------------------------------------------------------------------ request preservation *)
